@@ -301,6 +301,10 @@ def check_value_delivery(ctx: Ctx, rep: Report) -> None:
         kind, why = cont.returned(mg)
         rep.check(kind == FAITHFUL and not cont.cuts, "C06-R5", mg.site(), "multiget returns the value of every binding of the response (no filtering, no cut-off: noSuchObject / noSuchInstance / endOfMibView values are delivered as such)", f"kind {kind} {why}; cuts: {cont.cuts}", key=f"{mg.key}|values-dropped")
     bg = client.methods.get("bulkget")
+    from .fetcheval import emit
+
+    if bg is not None and "bulkget" in emit(ctx, rep, "C06-R5", ["bulkget"]):
+        bg = None  # decided by its evaluated contract (an endOfMibView value of a non-repeater is delivered as a value)
     if bg is not None:
         defs = ctx.defs(bg)
         rets = [n for n in own_nodes(bg.node) if isinstance(n, ast.Return) and isinstance(n.value, ast.Call) and len(n.value.args) == 2]
